@@ -108,5 +108,17 @@ PROPS['C10'] = dict(
     facts=['sql.tokens', 'const.sql.*', 'panics.sql.*'],
     runs=[dict(cmd='sql', proto='sql', timeout=1200)],
     search_seeds=1,
-    claim='pending', note='pending', rule='see C10 in DESIGN.md',
+    claim='Proof (partial by production): C10_cond_roundtrip / C10_where_roundtrip - for EVERY parenthesis-free combination of '
+          'comparison predicates with AND/OR (any number, any operands whose literals Token.Val reads back) the parser model returns '
+          'the tree in which AND binds tighter than OR and consumes exactly those tokens; C10_and_tighter; C10_group_by_list - a comma '
+          'separated GROUP BY list of n columns yields n columns (no silent cut). The remaining productions (select list, joins, '
+          'VALUES rows, SET lists, ORDER BY, LIMIT/OFFSET, DDL) and the text->token layer are covered by correspondence and judge only '
+          '(C10_statement_roundtrip_partial): statement trees generated over the whole grammar, rendered with random keyword case, '
+          'whitespace, comments, line breaks and optional keywords, two renderings each, exhaustive boolean shapes up to 4 predicates; '
+          'the real parser\'s AST must equal the generated tree and equal the model\'s AST.',
+    note='Trusted: Lean kernel, hand-written scanner/parser model, generator of expected trees in the harness (the tree side of the '
+         'round trip), Unicode tables. Adjacent tokens without whitespace are exercised only by the tight renderings.',
+    rule='as C09 (same run); a generated statement is one case per rendering; non-trivial: parses ok; distinct by input text.',
+    assumptions=['identifiers that collide with keywords are rendered delimited'],
+    trusted_base=['models Mkdb/Model/Scan.lean, Mkdb/Model/Parse.lean; expected-tree generator harness/cmd/h/sql.go'],
 )
